@@ -4,7 +4,7 @@ CLAIMS = {
     'C18': {
         'text': 'Decides, for every path of the anchored datastore functions, the shape of the address arithmetic: '
                 'the acceptance region of sequential validate, slice bounds of get/set, the sparse range/subset test, '
-                'the zero-mode offset and table selection of the slave context, routing / id interval of the server context, and storage isolation (default blocks fresh per table and per context, constructors copy their initial values). These are necessary conditions of the property that hold or fail for all inputs at once; '
+                'the zero-mode offset (an explicit zero_mode argument, False included, is honoured) and table selection of the slave context, routing / id interval of the server context, and storage isolation (default blocks fresh per table and per context, constructors copy their initial values). These are necessary conditions of the property that hold or fail for all inputs at once; '
                 'operation histories are not decided.',
         'note': 'Python slice/dict/set semantics trusted; only the in-memory blocks and contexts named in the anchors are analysed.',
         'technique': 'path enumeration + affine constraint normal forms (static)',
@@ -32,7 +32,7 @@ CLAIMS = {
                 'exactly one send per path except broadcast / ignored absent unit, at most one transport write per send and only '
                 'under should_respond with the bytes of framer.buildPacket, ids copied before send, response classes carry the '
                 'request function/sub-function code, transport writes reachable only through send<-execute<-framer callback, '
-                'per-connection framer creation, processIncomingPacket call signatures, no deferred scheduling on the response path, and (datagram front-ends) the destination of every reply traced back to the source address of the datagram that carried this request, one datagram per framer call, and coherent framer state between calls.',
+                'per-connection framer creation, processIncomingPacket call signatures, no deferred scheduling on the response path, and (datagram front-ends) the destination of every reply traced back to the source address of the datagram that carried this request, one datagram per framer call, coherent framer state between calls, and decoder.register() keeping the built-in sub-function dispatch.',
         'note': 'request.execute may raise any Exception, context lookup NoSuchSlaveException; other statements non-raising. '
                 'Byte-exact output streams over request histories are not decided.',
         'technique': 'per-path effect counting over interprocedural path enumeration + who-may-call + signature conformance (static)',
@@ -40,7 +40,7 @@ CLAIMS = {
     'C10': {
         'text': 'Decides the unit-filter decision table rows the property fixes, that every non-broadcast path executes once against '
                 'context[request.unit_id], that the broadcast branch (iff broadcast_enable and unit 0) iterates context.slaves() and executes in every iteration, once each, without sending, the gateway exception / silence for absent units, that every receive loop passes '
-                'context.slaves()/context.single and admits unit 0 under broadcast, the server-context routing/id interval, and that contexts do not share default blocks (a write to one unit cannot reach another through a shared default).',
+                'context.slaves()/context.single and admits unit 0 under broadcast, the server-context routing/id interval, that contexts do not share default blocks, and that no truthiness test can replace the context handed to a server by a default one.',
         'note': 'Non-interference between unit datastores at run time follows from these routing facts plus C05 R2; it is not itself decided.',
         'technique': 'decision-table enumeration + path routing analysis + sibling agreement (static)',
     },
@@ -48,7 +48,7 @@ CLAIMS = {
         'text': 'Exception-flow containment: in each sync and asyncio receive loop no exception raised by the framer call or the '
                 'transport read can leave the loop, and the handler resets the framer or ends the connection (a handler task shared by all peers of a datagram endpoint must not end); datastore mutators are '
                 'reachable only through Request.execute <- front-end execute; framers/decoders never touch datastores; framers hold no '
-                'class-level mutable state and every connection owns its framer; a framer path that delivers a message without a successful checkFrame is accepted only when restricted to function codes >= 0x80 (they decode to a request that touches no datastore). Thorough tier cross-checks the Twisted reactor '
+                'class-level mutable state and every connection owns its framer; a framer path that delivers a message without a successful checkFrame is accepted only when restricted to function codes >= 0x80 (they decode to a request that touches no datastore); decode() of every write request reads exactly the declared fields. Thorough tier cross-checks the Twisted reactor '
                 'containment assumption against the installed Twisted sources.',
         'note': 'Statements other than the framer call / transport read are treated as non-raising; Twisted containment is an assumption in the quick tier.',
         'technique': 'exception-flow analysis over enumerated paths + call-graph who-may-call (static)',
@@ -86,7 +86,7 @@ CLAIMS = {
         'text': 'Decides the pairing structure of ModbusTransactionManager.execute: under which key the received message is filed '
                 '(its own id vs. a key forced from the request), whether reply transaction id / function code are ever compared '
                 'with the request, that the unit filter is request.unit_id, that the framed bytes are those received in this call, '
-                'that no reachable fallback fetches under a foreign key, that a fresh id is allocated and stale framer bytes are cleared before transmitting; a TCP read of unknown size ends only on its deadline. Two genuine defects are listed as known findings.',
+                'that no reachable fallback fetches under a foreign key, that a fresh id is allocated and stale framer bytes are cleared before transmitting; a TCP read of unknown size ends only on its deadline; a first read that is not exactly min_size long raises (so the connection is closed). Two genuine defects are listed as known findings.',
         'note': 'Structural necessary conditions; reply contents and connection histories are not explored.',
         'technique': 'key-provenance / must-compare rule over region-scoped path enumeration (static)',
     },
@@ -94,7 +94,7 @@ CLAIMS = {
         'text': 'Loop-variant analysis of the retry loop (initial value retries + 1, > 0 test, exactly one decrement per back-edge, one '
                 '_transact per iteration, no other repeated sender), the retry decision table enumerated over the loop-body paths '
                 'against the documented options (a reply counts as the caller\'s own only under equality of unit ids), exception-flow from _recv/_send through _transact, the five framers and execute '
-                '(what can escape a client call), the clean-exit state / close-on-fault discipline, and that the serial client drains stale input before every write for every framing.',
+                '(what can escape a client call), the clean-exit state / close-on-fault discipline, that the serial client drains stale input before every write for every framing, that a short or empty first read raises, and that the time budget of the client polling loops is fixed before the loop.',
         'note': 'Wall-clock bounds of blocking transport calls and the correctness of a following transaction are not decided. '
                 'Six genuine defects are listed as known findings.',
         'technique': 'loop-variant extraction + decision-table enumeration + interprocedural exception-flow summaries (static)',
@@ -129,14 +129,14 @@ CLAIMS = {
                 'exhaustiveness / injectivity / subclassing; the writer summary of every encode() (field order, widths, endianness, '
                 'byte-count expressions, bit lists through pack_bitstring, repeats) is compared with a spec-derived layout table; the '
                 'reader summary of every decode() (offset, width, target attribute, loop start/stride/iteration count) is compared '
-                'with the same table; dispatch dataflow of both _helper functions, including that a sub-function / MEI-type class looked up in a table is tested against None and not for truthiness (sub-function 0 is valid). Message constructors must not store a mutable default argument. Five genuine defects are known findings.',
+                'with the same table; dispatch dataflow of both _helper functions, including that a sub-function / MEI-type class looked up in a table is tested against None and not for truthiness (sub-function 0 is valid). Message constructors must not store a mutable default argument and must keep a 0 argument of an integer field; decoder.register() must not replace an existing sub-function table. Five genuine defects are known findings.',
         'note': 'pack_bitstring/unpack_bitstring arithmetic and struct are trusted; value ranges are not decided. The MEI object list is decided by C20.',
         'technique': 'abstract interpretation to wire-layout summaries compared with frozen spec tables; constant folding of decoder tables (static)',
     },
     'C02': {
         'text': 'Writer/reader agreement computed directly between each encode() summary and the matching decode() summary (independent '
                 'of the spec table), purity of encode (no attribute modified in place without a reset in the same call), decode not '
-                'accumulating, and losslessness of re-classing by sub-function code (no constructor-only state read after the swap; the dispatch is reached for every sub-function code, 0 included), a leading field that decode stores in an attribute is encoded from the message and not from a constant, and no constructor stores a mutable default argument.',
+                'accumulating, and losslessness of re-classing by sub-function code (no constructor-only state read after the swap; the dispatch is reached for every sub-function code, 0 included), a leading field that decode stores in an attribute is encoded from the message and not from a constant, no constructor stores a mutable default argument, and decoder.register() keeps the existing sub-function tables.',
         'note': 'struct trusted for value equality. Five genuine defects are known findings (four asymmetric pairs, one accumulation pinned by a test).',
         'technique': 'writer/reader layout-summary comparison + reaching-definition style purity rule (static)',
     },
@@ -144,7 +144,7 @@ CLAIMS = {
         'text': 'Writer summaries of the five buildPacket methods are compared with the specified ADU layouts; receive-side agreement is '
                 'decided by affine arithmetic on the summaries (advanceFrame consumes exactly the built packet length given the meaning '
                 'of the header length, getFrame starts at the function-code offset and ends before the check value, MBAP header parse '
-                'format/binding = build format/binding, populateResult copies the ids, every MBAP length 2..254 is accepted); the RTU length oracle (_rtu_frame_size, '
+                'format/binding = build format/binding, populateResult copies the ids, every MBAP length 2..254 is accepted, with default options no framer reads a header key it never defines); the RTU length oracle (_rtu_frame_size, '
                 '_rtu_byte_count_pos, custom size functions) is compared with the spec layout of every class reachable through '
                 'lookupPduClass; transforms applied on send need an inverse on receive; checksum comparison shape and CRC constants.',
         'note': 'Numerical correctness of computeCRC/computeLRC (hence the on-wire CRC byte order) and payload-content sweeps are not decided. Three known findings.',
